@@ -788,6 +788,25 @@ pub fn gen_c11(run: &mut Run, seed: u64, thorough: bool) {
                     i.op(&format!("tok.meta {}", a.tok()), "q");
                 }
             }
+            // a minter field that is well-formed XDR of something that is NOT an address (a string, a number, bytes), or not XDR
+            // at all: the deployment is refused and the id stays free
+            for (k, (bytes, label)) in [
+                (soroban_sdk::String::from_str(&env, "GDRXE2BQUC3AZNPVFSCEZ76NJ3WWL25FYFK6RGZGIEKWE4SOOHSUJUJ6").to_xdr(&env).to_alloc_vec(), "xdr-string"),
+                (7u32.to_xdr(&env).to_alloc_vec(), "xdr-u32"),
+                (soroban_sdk::Bytes::from_slice(&env, &[1u8; 32]).to_xdr(&env).to_alloc_vec(), "xdr-bytes"),
+                (b"zz".to_vec(), "garbage"),
+            ].into_iter().enumerate() {
+                let mut t = [0x93u8; 32];
+                t[1] = k as u8;
+                t[2] = r as u8;
+                let p = deploy_payload(&env, b"avalanche", &t, b"Remote", b"RMT", 11, Some(bytes));
+                i.deliver(&p, &format!("remote-deploy-minter-{label}"));
+                i.op(&format!("its.token_address {}", hex::encode(t)), "q");
+                // a corrected message for the same id must still be deployable
+                let p = deploy_payload(&env, b"avalanche", &t, b"Remote", b"RMT", 11, Some(addr_xdr(&env, &users[2])));
+                i.deliver(&p, &format!("remote-deploy-corrected-after-{label}"));
+                i.op(&format!("its.token_address {}", hex::encode(t)), "q");
+            }
             for (k, minter) in [None, Some(users[2].clone()), Some(its.clone())].into_iter().enumerate() {
                 let mut t = [0x90u8; 32];
                 t[1] = k as u8;
